@@ -162,6 +162,69 @@ def w_tables(cfg, tier):
     return col.result()
 
 
+def registered_failures():
+    """A code and a decoder registered through the documented GUI.add_code / GUI.add_decoder API are menu
+    entries like the shipped ones: listed, offered their deformations and decoders, and /code-data returns the
+    library's matrices.  Returns the list of failed checks (run in a process of its own: registration writes
+    into the registries)."""
+    g = gui_table()
+    from panqec.codes import Toric2DCode
+    from panqec.decoders import BeliefPropagationOSDDecoder
+
+    class MyToric2DCode(Toric2DCode):
+        @property
+        def id(self):                  # drawn with the Toric2DCode entries of the drawing configuration
+            return 'Toric2DCode'
+
+    class MyBPOSD(BeliefPropagationOSDDecoder):
+        allowed_codes = None
+    gui = g.GUI()
+    gui.add_code(MyToric2DCode, 'My Toric 2D')
+    gui.add_decoder(MyBPOSD, 'My BP-OSD')
+    client = gui.app.test_client()
+    bad = []
+    r = client.post('/code-names', json={'dimension': 2})
+    if r.status_code != 200 or 'My Toric 2D' not in json.loads(r.data):
+        bad.append(f'/code-names: {r.status_code} {r.data[:80]!r}')
+    r = client.post('/deformation-names', json={'code_name': 'My Toric 2D'})
+    if r.status_code != 200 or json.loads(r.data) != list(MyToric2DCode.deformation_names):
+        bad.append(f'/deformation-names: {r.status_code}')
+    for code_name, cls in (('My Toric 2D', MyToric2DCode), ('Toric 2D', Toric2DCode)):
+        r = client.post('/decoder-names', json={'code_name': code_name})
+        want = {n for n, d in gui.decoders.items() if d.allowed_codes is None or cls.__name__ in d.allowed_codes}
+        got = set(json.loads(r.data)) if r.status_code == 200 else None
+        if got != want or 'My BP-OSD' not in (got or ()):
+            bad.append(f'/decoder-names for {code_name}: {r.status_code} {sorted(got) if got else got} != {sorted(want)}')
+    for size in ((3, 3), (4, 3)):
+        for deformation in ['None'] + list(MyToric2DCode.deformation_names):
+            payload = {'Lx': size[0], 'Ly': size[1], 'code_name': 'My Toric 2D', 'code_deformation_name': deformation,
+                       'rotated_picture': False}
+            r = client.post('/code-data', json=payload)
+            if r.status_code != 200:
+                bad.append(f'/code-data {size} {deformation}: status {r.status_code}')
+                continue
+            data = json.loads(r.data)
+            ref = MyToric2DCode(*size)
+            if deformation != 'None':
+                ref.deform(deformation)
+            if data['H'] != ref.stabilizer_matrix.toarray().tolist() or data['logical_x'] != ref.logicals_x.tolist() or \
+                    len(data['qubits']) != ref.n or len(data['stabilizers']) != ref.n_stabilizers:
+                bad.append(f'/code-data {size} {deformation}: content differs from the library')
+    return bad
+
+
+def w_registered(cfg, tier):
+    col = hz.Collector(cfg)
+    g = gui_table()
+    col.encoded(g.GUI.add_code, g.GUI.add_decoder, g.GUI.send_decoder_names, g.GUI._instantiate_code)
+    bad = hz.in_forked_child(registered_failures)
+    col.record('C20/registered-code-and-decoder-are-served-like-the-shipped-ones', 'sat' if bad else 'unsat', 0, False,
+               dict(registered=True, failures=bad[:5]) if bad else None,
+               'GUI.add_code(subclass of Toric2DCode) + GUI.add_decoder(BP-OSD subclass with allowed_codes=None): '
+               '/code-names, /deformation-names, /decoder-names, /code-data (two sizes, all deformations)')
+    return col.result()
+
+
 def w_wiring(cfg, tier):
     """/decode and /new-errors build the library objects the request names (recorder stubs; the menu
     options are solver-chosen and realised)."""
@@ -288,13 +351,18 @@ def w_wiring(cfg, tier):
 
 
 def worker(cfg, tier='quick'):
-    return {'repr': w_repr, 'tables': w_tables, 'wiring': w_wiring}[cfg.replace('|', ' ').split()[0]](cfg, tier)
+    return {'repr': w_repr, 'tables': w_tables, 'wiring': w_wiring, 'registered': w_registered}[cfg.replace('|', ' ').split()[0]](cfg, tier)
 
 
 def replay(path):
     with open(path) as f:
         d = json.load(f)
     w, oid, cfg = d['witness'], d['oid'], d['config']
+    if isinstance(w, dict) and w.get('registered'):
+        bad_ = registered_failures()
+        print('failures:', bad_)
+        print('REPLAY', 'reproduced' if bad_ else 'not-reproduced', oid, cfg)
+        return 0
     if isinstance(w, dict) and w.get('impure'):
         # the real function returned two different values for the same argument: re-run the worker in this fresh
         # interpreter; the obligation must be reported again
@@ -352,7 +420,7 @@ def replay(path):
 
 def configs(tier):
     g = gui_table()
-    out = ['tables all']
+    out = ['tables all', 'registered all']
     for code_name, cls in g.codes.items():
         out.append(f'wiring {code_name}')
         for s in menu_sizes(cls.__name__, tier):
